@@ -7,6 +7,7 @@
  */
 #include "h4v.h"
 #include "h4v_err.h"
+#define H4V_LOOPS_hfiledd_dir /* activates loops/hfiledd_dir.loops (guarded table) */
 #include "hfiledd_dir_ghost.h"
 #include "bitvect.c"
 #include "dynarray.c"
